@@ -259,9 +259,16 @@ func (ex *Exec) indexAddr(fr *Frame, x *ssa.IndexAddr) Value {
 			}
 		}
 	case *types.Slice:
-		if _, ok := fr.sparseIdx[x.Index]; !ok {
+		inSort := len(base.Alts) > 0
+		for _, a := range base.Alts {
+			if st, ok := a.Tgt.(SliceT); !ok || !ex.physIndex[st.Arr] {
+				inSort = false
+			}
+		}
+		if _, ok := fr.sparseIdx[x.Index]; !ok && !inSort {
 			ex.addPanic(fr, Not(BVCmp("bvult", it, ex.sliceLen(base))), "index-out-of-range", x.Pos())
-		} // else: range driver, the cell is present by construction
+		} // else: range driver (the cell is present by construction) or the comparator of a sort in
+		// progress, which the sort model calls with physical cell numbers of present cells
 		if k, ok := fr.sparseIdx[x.Index]; ok {
 			// range driver over a sparse slice: this iteration is physical cell k
 			for _, a := range base.Alts {
